@@ -158,20 +158,20 @@ type Found struct {
 }
 
 type workerResult struct {
-	Worker     int              `json:"worker"`
-	Evals      int64            `json:"evals"`
-	Steps      int64            `json:"steps"`
-	Faults     map[string]int64 `json:"faults"`
-	Probes     map[string]int64 `json:"probes"`
-	Keys       []uint64         `json:"keys"`
+	Worker     int                 `json:"worker"`
+	Evals      int64               `json:"evals"`
+	Steps      int64               `json:"steps"`
+	Faults     map[string]int64    `json:"faults"`
+	Probes     map[string]int64    `json:"probes"`
+	Keys       []uint64            `json:"keys"`
 	NamedKeys  map[string][]uint64 `json:"named_keys"`
-	KeysCapped bool             `json:"keys_capped"`
-	Samples    []any            `json:"samples"`
-	Found      []Found          `json:"found"`
-	FirstIndex int              `json:"first_index"`
-	LastIndex  int              `json:"last_index"`
-	Harness    string           `json:"harness,omitempty"`
-	WallS      float64          `json:"wall_s"`
+	KeysCapped bool                `json:"keys_capped"`
+	Samples    []any               `json:"samples"`
+	Found      []Found             `json:"found"`
+	FirstIndex int                 `json:"first_index"`
+	LastIndex  int                 `json:"last_index"`
+	Harness    string              `json:"harness,omitempty"`
+	WallS      float64             `json:"wall_s"`
 }
 
 // Out and Err are the process's original standard streams: properties may
@@ -607,14 +607,14 @@ func parentMain(p Property, env *Env) int {
 		"runs_per_hour":       int64(float64(agg.Evals) / loopWall * 3600),
 		"seeds": map[string]any{"base": env.Seed, "first_index": agg.FirstIndex, "last_index": agg.LastIndex,
 			"derivation": "run_seed = splitmix-mix(base, property id, index); params from fork 'gen', run-time decisions from fork 'run' of xoshiro256**(run_seed)"},
-		"logical_steps":      agg.Steps,
-		"simulated_time":     "n/a: the code under test has no clock, timer or deadline; logical steps (decisions, statements, calls) are reported instead",
-		"faults_injected":    agg.Faults,
-		"probes":             agg.Probes,
-		"components":         map[string]any{"real": meta.Real, "stub": meta.Stub},
+		"logical_steps":        agg.Steps,
+		"simulated_time":       "n/a: the code under test has no clock, timer or deadline; logical steps (decisions, statements, calls) are reported instead",
+		"faults_injected":      agg.Faults,
+		"probes":               agg.Probes,
+		"components":           map[string]any{"real": meta.Real, "stub": meta.Stub},
 		"distinct_keys_capped": agg.KeysCapped,
-		"known_findings_seen": knownSeen,
-		"workers":             n,
+		"known_findings_seen":  knownSeen,
+		"workers":              n,
 	}
 	dn := map[string]int{}
 	for name, m := range named {
